@@ -4,6 +4,7 @@ import (
 	"io"
 	"log"
 	"os"
+	"strings"
 	"testing"
 
 	"github.com/go-logr/stdr"
@@ -14,7 +15,19 @@ import (
 // TestMain silences libovsdb's loggers (they are built around os.Stderr at
 // construction time, verbosity 5) and flushes the coverage statistics.
 func TestMain(m *testing.M) {
-	if os.Getenv("VERIF_KEEP_STDERR") == "" {
+	// the coordinator of a native fuzzing campaign reports its progress on stderr
+	coordinator := false
+	for _, a := range os.Args {
+		if strings.HasPrefix(a, "-test.fuzz=") {
+			coordinator = true
+		}
+	}
+	for _, a := range os.Args {
+		if strings.HasPrefix(a, "-test.fuzzworker") {
+			coordinator = false
+		}
+	}
+	if os.Getenv("VERIF_KEEP_STDERR") == "" && !coordinator {
 		if null, err := os.OpenFile(os.DevNull, os.O_WRONLY, 0); err == nil {
 			os.Stderr = null
 		}
